@@ -14,6 +14,7 @@ completion through cloudpickle, cutting aliasing exactly where a process pool
 cuts it; boundary='thread' passes the caller's objects through untouched.
 """
 import traceback
+import concurrent.futures
 import multiprocessing.pool
 
 import cloudpickle
@@ -37,10 +38,11 @@ def unbind():
 
 
 class _Task:
-    __slots__ = ("n", "fn", "args", "kwargs", "state", "value", "exc")
+    __slots__ = ("n", "fn", "args", "kwargs", "state", "value", "exc", "future")
 
     def __init__(self, n, fn, args, kwargs):
         self.n = n
+        self.future = None
         self.fn = fn
         self.args = args
         self.kwargs = kwargs
@@ -114,6 +116,8 @@ class _Core:
             t.value = cloudpickle.loads(cloudpickle.dumps(t.value))
         t.state = "done"
         self.done_order.append(t.n)
+        if t.future is not None:
+            t.future._publish()
 
     def wait(self, t):
         guard = 0
@@ -140,12 +144,27 @@ class _Core:
         return inv
 
 
-class SimFuture:
-    """concurrent.futures-like"""
+class SimFuture(concurrent.futures.Future):
+    """A real concurrent.futures.Future whose completion the simulator decides.
+    result()/exception() drive the pool instead of blocking;
+    concurrent.futures.as_completed / wait are interposed (see install) so that
+    code using them on these futures sees tape-chosen completion orders."""
 
     def __init__(self, core, task):
+        concurrent.futures.Future.__init__(self)
         self._core = core
         self._task = task
+        task.future = self
+        if task.state == "done":
+            self._publish()
+
+    def _publish(self):
+        if concurrent.futures.Future.done(self):
+            return
+        if self._task.exc is not None:
+            self.set_exception(self._task.exc)
+        else:
+            self.set_result(self._task.value)
 
     def result(self, timeout=None):
         return self._core.wait(self._task)
@@ -153,12 +172,69 @@ class SimFuture:
     def done(self):
         return self._task.state == "done"
 
+    def running(self):
+        return self._task.state == "inflight"
+
+    def cancel(self):
+        return False
+
     def exception(self, timeout=None):
         try:
             self._core.wait(self._task)
         except Exception as e:
             return e
         return None
+
+
+def sim_as_completed(fs, timeout=None):
+    fs = list(fs)
+    if not fs or not all(isinstance(f, SimFuture) for f in fs):
+        return _real_as_completed(fs, timeout)
+
+    def gen():
+        pending = list(dict.fromkeys(fs))
+        seen = set()
+        while pending:
+            ready = [f for f in pending if f.done()]
+            if not ready:
+                # nothing finished yet: let the simulated pool make one step
+                cores = list(dict.fromkeys(f._core for f in pending))
+                if not any(c._step() for c in cores):
+                    raise HarnessError("as_completed: simulated pool stuck")
+                continue
+            # several may have finished "meanwhile": report in completion order
+            order = {n: i for c in dict.fromkeys(f._core for f in ready)
+                     for i, n in enumerate(c.done_order)}
+            ready.sort(key=lambda f: order.get(f._task.n, 0))
+            f = ready[0]
+            pending.remove(f)
+            yield f
+
+    return gen()
+
+
+def sim_wait(fs, timeout=None, return_when=concurrent.futures.ALL_COMPLETED):
+    fs = list(fs)
+    if not fs or not all(isinstance(f, SimFuture) for f in fs):
+        return _real_wait(fs, timeout, return_when)
+    DoneAndNotDone = concurrent.futures._base.DoneAndNotDoneFutures
+    while True:
+        done = {f for f in fs if f.done()}
+        if return_when == concurrent.futures.FIRST_COMPLETED and done:
+            break
+        if return_when == concurrent.futures.FIRST_EXCEPTION and any(
+                f._task.exc is not None for f in done):
+            break
+        if len(done) == len(fs):
+            break
+        cores = list(dict.fromkeys(f._core for f in fs if not f.done()))
+        if not any(c._step() for c in cores):
+            raise HarnessError("wait: simulated pool stuck")
+    return DoneAndNotDone(done, set(fs) - done)
+
+
+_real_as_completed = concurrent.futures.as_completed
+_real_wait = concurrent.futures.wait
 
 
 class SimAsyncResult:
@@ -247,8 +323,19 @@ def sim_get_reusable_executor(max_workers=None, *args, **kwargs):
     return ex
 
 
+def install_futures():
+    """Interpose concurrent.futures.as_completed / wait (before xyzpy is
+    imported, so that ``from concurrent.futures import as_completed`` binds the
+    simulated versions)."""
+    concurrent.futures.as_completed = sim_as_completed
+    concurrent.futures.wait = sim_wait
+    concurrent.futures._base.as_completed = sim_as_completed
+    concurrent.futures._base.wait = sim_wait
+
+
 def install():
     """Rebind get_reusable_executor in the two xyzpy modules that import it."""
+    install_futures()
     import xyzpy.gen.combo_runner as cr
     import xyzpy.gen.cropping as cp
 
